@@ -73,13 +73,15 @@ def run(ctx, widen=False):
         ctx.bump("chain depth %d" % k)
         progs.append(closed)
         progs.append(closed[: len(closed) - ctx.rng.randint(1, k)] if k else closed)
-    if thorough:
+    if True:
         A = list("[({λƛ⟨|1+vX;)]⟩}")
         cnt = 0
         def short_programs():
             # every program of <= 5 symbols (1.1 million), and a seeded sample of 300 000 programs of 6..8 symbols
             # (all 16^6 of the next length would take hours in one process)
-            for L in range(1, 6):
+            # (quick: every program of <= 3 symbols — a modifier or a `|` right before an opener that is the last character
+            # is the kind of end-of-input shape only short programs reach)
+            for L in range(1, 6 if thorough else 4):
                 for t in itertools.product(A, repeat=L):
                     yield "".join(t)
             if ctx.tier == "thorough":
@@ -97,7 +99,7 @@ def run(ctx, widen=False):
                 if cnt % 50 == 0:
                     progs.append(closed)
         ctx.bump("exhaustive short programs", cnt)
-        ctx.exhaustive = True
+        ctx.exhaustive = thorough
     # every short string body over the escape-relevant characters, with and without its closing delimiter
     for d in "`«»":
         for L in range(0, 5 if thorough else 4):
